@@ -25,7 +25,21 @@ pub struct Case {
 fn long_line(rng: &mut Rng, num: u64) -> String {
     let n = rng.pick(&[5usize, 20, 50, 120, 200]);
     let mut parts = vec![];
-    match rng.below(5) {
+    match rng.below(6) {
+        5 => {
+            // the work of one call is bounded by the length of the line, not by the *values* on it:
+            // operands of huge magnitude (a power, a product, INT / ABS of 1E300, a subscript) cost the same
+            let big = rng.pick(&["1000000000000000000", "99999999999", "1E300", "4294967296", "18446744073709551615"]);
+            for _ in 0..n.min(20) {
+                parts.push(match rng.below(5) {
+                    0 => format!("C = 1 ^ {big}"),
+                    1 => format!("C = 1.0000001 ^ {big}"),
+                    2 => format!("C = INT({big}) + ABS(-{big})"),
+                    3 => format!("C = {big} * {big} / {big}"),
+                    _ => format!("C = 0 ^ {big} + 2 ^ -{big}"),
+                });
+            }
+        }
         0 => {
             for i in 0..n {
                 parts.push(format!("PRINT {}", i));
